@@ -3879,10 +3879,20 @@ class BoutMesh(Mesh):
             # member
             chi.ylow = 2.0 * numpy.pi * self.zShift.ylow / self.ShiftAngle.centre
             # set to NaN in divertor leg regions where chi is not valid
+            # Note: jyseps* do not include y-boundary guard cells, but the arrays do.
+            # There are myg guard cells before the first cell, and (for double-null)
+            # 2*myg more at the upper targets.
+            if jyseps2_1 != jyseps1_2:
+                upper_target_guards = 2 * myg
+            else:
+                upper_target_guards = 0
             for c in [chi.centre, chi.xlow, chi.ylow]:
-                c[:, : jyseps1_1 + 1] = float("nan")
-                c[:, jyseps2_1 + 1 : jyseps1_2 + 1] = float("nan")
-                c[:, jyseps2_2 + 1 :] = float("nan")
+                c[:, : jyseps1_1 + 1 + myg] = float("nan")
+                c[
+                    :,
+                    jyseps2_1 + 1 + myg : jyseps1_2 + 1 + myg + upper_target_guards,
+                ] = float("nan")
+                c[:, jyseps2_2 + 1 + myg + upper_target_guards :] = float("nan")
             chi.attributes["bout_type"] = "Field2D"
             self.writeArray("chi", chi, f)
 
